@@ -293,6 +293,61 @@ def run(ctx):
     return ctx.finish(proof=proof)
 
 
+def renamed_crate_stream(ctx, acc, build_env):
+    """the same accepted items in a crate that knows ts-rs only under ANOTHER name (`ts-renamed = { package = "ts-rs" }`, `#[ts(crate = "ts_renamed")]`):
+    every path the expansion writes has to go through the rename — a literal `::ts_rs::` does not resolve there"""
+    import shutil
+    items = acc[: (120 if ctx.quick else 600)]
+    fixed = ["struct T { #[ts(flatten)] inner: Inner }", "struct T { a: u8, #[ts(flatten)] inner: Inner }", "struct T { #[ts(flatten)] inner: Inner, #[ts(flatten)] other: Other }",
+             "enum T { A { #[ts(flatten)] inner: Inner }, B { x: u8, #[ts(flatten)] inner: Inner } }", "struct T { #[ts(inline)] inner: Inner, #[ts(optional)] o: Option<Inner> }",
+             "struct T<P> { p: P, v: Vec<P> }", "#[ts(tag = \"t\", content = \"c\")] enum T { A(Inner), B { x: u8 }, C }", "struct T(Inner, #[ts(skip)] u8);", "struct T;",
+             "#[ts(export, export_to = \"r/\")] struct T { a: [u8; 3], m: std::collections::HashMap<String, Inner> }", "#[ts(as = \"Inner\")] struct T { z: u8 }",
+             "#[ts(concrete(P = u8))] struct T<P> { p: P }", "struct T<const N: usize = 2> { a: [u8; N] }"]
+    d = os.path.join(vlib.BUILD, "e2e-c16r")
+    os.makedirs(os.path.join(d, "src"), exist_ok=True)
+    os.makedirs(os.path.join(d, ".cargo"), exist_ok=True)
+    shutil.copy(os.path.join(vlib.REPO, "Cargo.lock"), os.path.join(d, "Cargo.lock"))
+    open(os.path.join(d, ".cargo", "config.toml"), "w").write("[net]\noffline = true\n")
+    open(os.path.join(d, "Cargo.toml"), "w").write(f'''[package]
+name = "e2e-c16r"
+version = "0.1.0"
+edition = "2021"
+[workspace]
+[dependencies]
+ts-renamed = {{ package = "ts-rs", path = "{vlib.REPO}/ts-rs" }}
+[profile.dev]
+debug = false
+''')
+    srcs = [s_ for s_ in fixed] + [item_src(it, "T") for it, _ in items]
+    L = ["#![allow(dead_code, non_snake_case, non_camel_case_types, unused, uncommon_codepoints, mixed_script_confusables)]", "fn main() {}",
+         "#[derive(ts_renamed::TS)] #[ts(crate = \"ts_renamed\")] pub struct Inner { pub q: u8 }", "#[derive(ts_renamed::TS)] #[ts(crate = \"ts_renamed\")] pub struct Other { pub o: u8 }",
+         "mod m { pub fn serialize() {} }"]
+    for i, src in enumerate(srcs):
+        L.append(f"mod i{i} {{ use super::*; #[derive(ts_renamed::TS)] #[ts(crate = \"ts_renamed\")] {src} }}")
+    p = os.path.join(d, "src", "main.rs")
+    text = "\n".join(L) + "\n"
+    if not os.path.exists(p) or open(p).read() != text:
+        open(p, "w").write(text)
+    import e2e
+    build_env["CARGO_TARGET_DIR"] = e2e.target_dir()
+    rc, out = vlib.sh(["cargo", "check", "--offline", "--quiet", "--message-format=short"], cwd=d, env=build_env, timeout=3000)
+    bad = {}
+    if rc != 0:
+        for m in re.finditer(r"src/main\.rs:(\d+):\d+: error(?:\[(E\d+)\])?: ([^\n]*)", out):
+            idx = int(m.group(1)) - 6
+            if 0 <= idx < len(srcs):
+                bad.setdefault(idx, f"{m.group(2) or ''} {m.group(3)}"[:300])
+        if not bad:
+            ctx.violation("the crate that uses ts-rs under another name does not build and the errors cannot be mapped to items", {"rustc": out[-1500:]}, {})
+        for idx, msg in sorted(bad.items())[:4]:
+            ctx.violation("the derive accepts the item but its expansion does not compile in a crate that uses ts-rs under another name (`#[ts(crate = \"..\")]`)",
+                          {"item": srcs[idx], "rustc": msg}, {})
+    ctx.stream("accepted items compiled under a crate rename", len(srcs), len(srcs),
+               "13 fixed shapes (one / several flattened fields with and without other fields, flattened variants, inline, optional, generics, const default, tagged enum, tuple, unit, "
+               "export_to, as, concrete) and a sample of the accepted items, compiled in a crate whose only dependency is `ts-renamed = { package = \"ts-rs\" }`, every item with "
+               "`#[ts(crate = \"ts_renamed\")]`", [{"item": srcs[0]}], {"items_with_errors": len(bad)})
+
+
 def compile_stream(ctx, gen):
     """accepted items are compiled with the real derive; every one must compile (or be rejected by the documented `optional` diagnostic)"""
     import shutil, subprocess
@@ -378,6 +433,7 @@ debug = false
             if fails <= 5:
                 ctx.violation("the derive accepts the item but its expansion does not compile", case, {})
         acc = [x for i, x in enumerate(acc) if i not in bad]
+    renamed_crate_stream(ctx, [x for x in all_acc if item_src(x[0]) not in seen and item_src(x[0]) not in optional_diag], build_env=vlib.cargo_env())
     for it, tag in all_acc:
         if it.get("_expect_optional_err") and item_src(it) not in optional_diag:
             fails += 1
